@@ -24,6 +24,8 @@ import (
 //   - want = ∞ (scalars 0, n, 2n…, P + k·G = ∞): the observable of the property is "bytes and Infinity flags"; the only
 //     carrier of the flag in this API is the boolean result, so the call must report failure — `true` together with 33
 //     bytes that read as a public key is a wrong answer.
+//     (The code did exactly that until /repo fix 6fd2a4a3 — the former known findings api-*-identity; the keys are kept so
+//     that a regression is reported under the same name. api.go runs the same judgement on byte-string operands.)
 func checkAPI(name, call string, want pt, c *caseRec, f func(out []byte) bool) bool {
 	out33 := make([]byte, 33)
 	var ok bool
